@@ -85,8 +85,8 @@ func c05Oracle(sp *Spec, x *X, res *mcrt.Result) (string, string) {
 				return "bar-came-back", fmt.Sprintf("bar %d absent from an earlier frame, present again in frame %d: %s", b, i, f)
 			}
 			// must(F): added before the previous frame was flushed, hence before this cycle began
-			if !in && !rem && !waiting && i > 0 && ret < frames[i-1].Step {
-				return "bar-missing", fmt.Sprintf("bar %d (added at step %d) missing from frame %d (cycle began after step %d): %s", b, ret, i, frames[i-1].Step, f)
+			if cs := x.CycleStart(frames, i); !in && !rem && !waiting && cs > 0 && ret < cs {
+				return "bar-missing", fmt.Sprintf("bar %d (added at step %d) missing from frame %d (cycle began at step %d): %s", b, ret, i, cs, f)
 			}
 			if !in && i > 0 && present[i-1][b] {
 				gone = true
